@@ -34,7 +34,12 @@ def check(run, focus=FOCUS, modules=MODULES, suffix=SUFFIX):
     except Exception as e:       # noqa
         run.violation("broken-correspondence", {"kind": "translator"}, f"the obligations could not be generated: {e}", found_input=False)
         return
-    extra = ["DynasmVerif.A64Dyn." + t for t in gen["theorems"] if t.endswith(suffix)]
+    try:
+        gen_rv = encgen.gen_rvdyn()
+    except Exception as e:       # noqa
+        run.violation("broken-correspondence", {"kind": "translator", "arch": "riscv"}, f"the riscv obligations could not be generated: {e}", found_input=False)
+        return
+    extra = ["DynasmVerif.A64Dyn." + t for t in gen["theorems"] if t.endswith(suffix)] + ["DynasmVerif.RvDyn." + t for t in gen_rv["theorems"] if t.endswith(suffix)]
     proofs_ok = common.standard_proof_step(run, modules, allow_bv_decide=True, extra_targets=["driver"], extra_theorems=extra)
     found_before = len(run.violations) + len(run.known_hit)
     if not proofs_ok and hasattr(run, "broken_build"):
@@ -43,6 +48,7 @@ def check(run, focus=FOCUS, modules=MODULES, suffix=SUFFIX):
             run.violation("broken-obligation", {"kind": "lean-build"}, run.broken_build["first_error"], run.broken_build, found_input=False)
             return
     stats = enc.sweep(run, gen, focus, thorough)
+    stats["riscv_immediates"] = enc.sweep_rv(run, gen_rv, focus, thorough)
     if focus == "C03":
         import x64dyn
         stats["x64_dynamic_registers"] = x64dyn.sweep(run, thorough)
